@@ -106,7 +106,8 @@ type program struct {
 	deferred map[int][]stmt  // function index → native sends deferred at its start (run in this order at its end)
 	segs     [][]stmt        // the statements of main, one segment per shape
 	modelled bool
-	raw      string // a program outside the mini language: Go source with @@ after every package-level name and @MAIN@ for main
+	alts     []*program // raw programs of several independent parts: one program per part (for shrinking)
+	raw      string     // a program outside the mini language: Go source with @@ after every package-level name and @MAIN@ for main
 }
 
 func (p *program) protoLine(level string, fp0, fuel int, seed uint64) string {
